@@ -287,7 +287,7 @@ def run(pid, tier, seed, a, t0):
         try:
             outs = run_driver([dict(lines[i], prop=pid) for i in idx])
             for i, o in zip(idx, outs):
-                model_outs[i] = o
+                model_outs[i] = mod.model_canon(o) if hasattr(mod, "model_canon") else o
         except Exception as e:
             breaks.append({"kind": "correspondence-break", "what": f"model driver could not run: {e!r}"})
     elif not b.ok_driver:
